@@ -91,7 +91,15 @@ func (w *muxerMP4) writeFinalDTS(dts int64) {
 }
 
 func (w *muxerMP4) flush() error {
-	if w.curTrack == nil || len(w.curTrack.Samples) == 0 || w.curTrack.lastDTS < 0 {
+	// there is something to return if any track (not only the one read last)
+	// has samples inside the requested range.
+	hasSamples := false
+	for _, track := range w.tracks {
+		if len(track.Samples) != 0 && track.lastDTS >= 0 {
+			hasSamples = true
+		}
+	}
+	if !hasSamples {
 		return recordstore.ErrNoSegmentsFound
 	}
 
